@@ -434,7 +434,7 @@ func parseContractFile(path string, cs *ContractSet) error {
 				if j < 0 {
 					return fmt.Errorf("%s:%d: sets GHOST := expr [when cond]", path, l.line)
 				}
-				gname := map[string]string{"OUTLEN": "outlen", "INPOS": "inpos", "INLEN": "inlen"}[strings.TrimSpace(rest[:j])]
+				gname := map[string]string{"OUTLEN": "outlen", "INPOS": "inpos", "INLEN": "inlen", "TICKS": "ticks"}[strings.TrimSpace(rest[:j])]
 				if gname == "" {
 					return fmt.Errorf("%s:%d: sets: unknown ghost variable", path, l.line)
 				}
